@@ -229,6 +229,9 @@ impl<'a> Sim<'a> {
         }
         if v.states != self.view[node].states || v.parent != self.view[node].parent || v.gm != self.view[node].gm || v.steps != self.view[node].steps {
             self.last_change = self.now;
+            if std::env::var_os("VERIF_NET_TRACE").is_some() {
+                eprintln!("CHG t={} N{node} {:?} parent={} gm={} steps={}", self.now / MS, v.states, v.parent, v.gm, v.steps);
+            }
         }
         self.view[node] = v;
     }
